@@ -45,6 +45,16 @@ type replayCase struct {
 	Scenario string `json:"scenario"`
 	Choices  []int  `json:"choices"`
 	Detail   any    `json:"execution,omitempty"`
+	// Worker is set for violations that depend on the executions that ran before them in the worker
+	// process (state the library keeps across calls): the replay re-runs that worker's whole share.
+	Worker string `json:"worker,omitempty"`
+}
+
+// unreproduced: a violation seen during exploration that did not recur when its schedule was run on
+// its own in the same process.
+type unreproduced struct {
+	Scenario, Key, What string
+	Choices             []int
 }
 
 type workerOut struct {
@@ -54,6 +64,7 @@ type workerOut struct {
 	Capped                                  []string
 	Violations                              []vk.WorkerViolation
 	Machinery                               []string
+	Unreproduced                            []unreproduced
 	Samples                                 []any
 	MaxDepth                                int
 }
@@ -116,7 +127,7 @@ func runScenario(id string, s *Scenario, out *workerOut, deadline time.Time) {
 				last = e2
 			}
 			if !ok {
-				out.Machinery = append(out.Machinery, fmt.Sprintf("scenario %s: violation %s did not reproduce from its schedule %v", s.Name, v.Key, choices))
+				out.Unreproduced = append(out.Unreproduced, unreproduced{Scenario: s.Name, Key: key, What: v.What, Choices: choices})
 				continue
 			}
 			out.Violations = append(out.Violations, vk.WorkerViolation{Key: key, What: s.Name + ": " + v.What, Kind: "schedule",
@@ -230,6 +241,40 @@ func RunAll(r *vk.Run, scenarios []Scenario, budget time.Duration) {
 	}
 	wg.Wait()
 
+	// A violation that did not recur when its schedule was run on its own is either a flaw of this
+	// machinery (nondeterminism it failed to control) or a library that keeps state from one call to
+	// the next, so that what a call does depends on the calls before it. The two are told apart by
+	// running the worker's share again in a fresh process: exploration is deterministic, so state
+	// carried by the library produces the same violation at the same schedule of the same scenario
+	// again, and is then reported as a violation (the replay re-runs the share); anything else stays
+	// a machinery error.
+	for i := 0; i < n; i++ {
+		if len(outs[i].Unreproduced) == 0 {
+			continue
+		}
+		spec := fmt.Sprintf("shard:%d/%d", i, n)
+		cmd := exec.Command(os.Args[0], "--worker", spec, "--tier", r.Tier)
+		cmd.Env = append(os.Environ(), "GOMAXPROCS=2")
+		var stdout bytes.Buffer
+		cmd.Stdout = &stdout
+		var again workerOut
+		if err := cmd.Run(); err == nil {
+			json.Unmarshal(stdout.Bytes(), &again)
+		}
+		second := map[string]bool{}
+		for _, u := range again.Unreproduced {
+			second[u.Scenario+"|"+u.Key+"|"+fmt.Sprint(u.Choices)] = true
+		}
+		for _, u := range outs[i].Unreproduced {
+			if second[u.Scenario+"|"+u.Key+"|"+fmt.Sprint(u.Choices)] {
+				r.Violation(u.Key+"/depends-on-earlier-calls", u.Scenario+": "+u.What+" — observed at this schedule in two fresh runs of the same exploration, but not when the schedule is executed on its own: what the call does depends on state the library keeps from earlier calls in the process", "history-of-executions",
+					replayCase{Scenario: u.Scenario, Choices: u.Choices, Worker: spec})
+			} else {
+				r.Machinery("scenario %s: violation %s did not reproduce from its schedule %v (nor at the same point of a second run of %s)", u.Scenario, u.Key, u.Choices, spec)
+			}
+		}
+	}
+
 	var execs, states, trans, pruned int64
 	outcomes := map[string]int64{}
 	capped := []string{}
@@ -293,6 +338,26 @@ func replay(r *vk.Run, scenarios []Scenario) {
 	}
 	var c replayCase
 	json.Unmarshal(raw, &c)
+	if c.Worker != "" {
+		cmd := exec.Command(os.Args[0], "--worker", c.Worker, "--tier", r.Tier)
+		cmd.Env = append(os.Environ(), "GOMAXPROCS=2")
+		var stdout bytes.Buffer
+		cmd.Stdout = &stdout
+		var again workerOut
+		if err := cmd.Run(); err == nil {
+			json.Unmarshal(stdout.Bytes(), &again)
+		}
+		fmt.Printf("replay: re-ran the exploration share %s in a fresh process (the violation depends on the executions before it)\n", c.Worker)
+		for _, u := range again.Unreproduced {
+			if u.Scenario == c.Scenario && fmt.Sprint(u.Choices) == fmt.Sprint(c.Choices) {
+				fmt.Printf("  again at scenario %q schedule %v: %s\n", u.Scenario, u.Choices, u.What)
+				r.Violation(u.Key+"/depends-on-earlier-calls", u.Scenario+": "+u.What, "history-of-executions", c)
+			}
+		}
+		r.Count(again.Executions)
+		r.Distinct(2)
+		return
+	}
 	for i := range scenarios {
 		s := &scenarios[i]
 		if s.Name != c.Scenario {
